@@ -584,6 +584,7 @@ func C08Exhaustive() []C08Case {
 	out = append(out, c08AugmentedCases()...)
 	out = append(out, c08NearMissCases()...)
 	out = append(out, c08HistoryCases()...) // last: the indices of the older cases stay what they were
+	out = append(out, c08LateCases()...)    // (after them, for the same reason) targets grafted by the left-over augment stage: c08late.go
 	return out
 }
 
